@@ -19,8 +19,8 @@ def run(ctx):
     results, caught = R.model_and_sensitivity(ctx, "C09", cfgs)
     summ, mism, lkmism, tot = R.replay(ctx, results)
     foreign = R.report_replay(ctx, "C09", mism, lkmism)
-    ntr, nops = (40, 250) if ctx.quick() else (400, 1000)
-    tsum, v = R.traces(ctx, "C09", ["dom", "fwd", "agt"], ntr, nops, "c09trace")
+    ntr, nops, chunks = (40, 250) + (1,) if ctx.quick() else (20, 1000) + (8,)
+    tsum, v = R.traces(ctx, "C09", ["dom", "fwd", "agt"], ntr, nops, "c09trace", chunks)
     foreign += R.report_trace(ctx, "C09", v)
     ctx.evidence("model_checking",
                  assumptions=["forward keys are case-sensitive opaque strings, domain names well-formed",
@@ -29,13 +29,13 @@ def run(ctx):
                               "agents {a, c} via 2 next hops; traces use 3 base domains, 20 names, 5 keys, 4 agents",
                               "single-threaded histories (the tables serialise all operations under one lock)"],
                  states=sum(r.distinct for r in results.values()), transitions=tot["edges"],
-                 traces_validated_against_impl=sum(s["walks"] for s in summ.values()) + (tsum["traces"] if v["accepted"] else 0),
+                 traces_validated_against_impl=sum(s["walks"] for s in summ.values()) + tsum["validated_traces"],
                  exhaustive=True, cfgs={n: {"states": r.distinct, "transitions": r.generated - 1} for n, r in results.items()},
                  replay={n: {k: s[k] for k in ("groups", "uncovered", "edges", "edges_exhibited", "steps", "walks",
                                                 "mismatches", "lkmismatches", "lookups")} for n, s in summ.items()},
                  nondeterministic_pairs=tot["nondet_groups"],
                  lookups_checked_in_replay=sum(s["lookups"] for s in summ.values()),
-                 trace_events=tsum["events"], trace_highwater=v["hw"], trace_event_counts=tsum["counts"],
+                 trace_events=tsum["events"], trace_events_matched=tsum["highwater_total"], trace_event_counts=tsum["counts"],
                  trace_lookup_hits=tsum["lookup_hits"], trace_lookup_misses=tsum["lookup_misses"],
                  trace_lookup_multi_candidate=tsum["lookup_multi_candidate"],
                  deviations_caught=caught, findings_of_sibling_properties_seen=foreign,
